@@ -36,11 +36,17 @@ def gen_vectors(threshold):
         shutil.rmtree(tmp, ignore_errors=True)
 
 
-def init_request(spi, nonce, cookies):
-    prop = {'num': 1, 'proto': 1, 'spi': b'', 'transforms': [{'type': 1, 'id': 12, 'keylen': 256}, {'type': 3, 'id': 12, 'keylen': None},
+def init_request(spi, nonce, cookies, neg='ok'):
+    prop = {'num': 1, 'proto': 1, 'spi': b'', 'transforms': [{'type': 1, 'id': 12, 'keylen': 256} if neg != 'noproposal' else {'type': 1, 'id': 3, 'keylen': None},
+                                                          {'type': 3, 'id': 12, 'keylen': None},
                                                           {'type': 2, 'id': 5, 'keylen': None}, {'type': 4, 'id': 19, 'keylen': None}]}
     pl = [{'t': W.NOTIFY, 'proto': 0, 'spi': b'', 'ntype': 16390, 'data': c} for c in cookies]
-    pl += [{'t': W.SA, 'proposals': [prop]}, {'t': W.NONCE, 'data': nonce}, {'t': W.KE, 'group': 19, 'data': KE_PUB}, {'t': W.VENDOR, 'data': b'verif'}]
+    ke = {'t': W.KE, 'group': 19, 'data': KE_PUB}
+    if neg == 'wrongke':          # the offer names the group the responder wants AND another one, in which the KE payload is
+        import kdf_ref
+        prop['transforms'] = prop['transforms'][:3] + [{'type': 4, 'id': 20, 'keylen': None}, {'type': 4, 'id': 19, 'keylen': None}]
+        ke = {'t': W.KE, 'group': 20, 'data': kdf_ref.dh_public(20, 0x515151)}
+    pl += [{'t': W.SA, 'proposals': [prop]}, {'t': W.NONCE, 'data': nonce}, ke, {'t': W.VENDOR, 'data': b'verif'}]
     return W.enc_message({'spi_i': spi, 'spi_r': b'\0' * 8, 'xchg': W.IKE_SA_INIT, 'response': False, 'initiator': True, 'mid': 0}, pl)
 
 
@@ -67,6 +73,10 @@ class Responder:
             return 'COOKIE', m['payloads'][0]['data']
         if W.SA in kinds and W.KE in kinds and W.NONCE in kinds:
             return 'INIT_OK', None
+        if kinds == [W.NOTIFY] and m['payloads'][0]['ntype'] == 17:
+            return 'INVALID_KE', None
+        if kinds == [W.NOTIFY] and m['payloads'][0]['ntype'] == 14:
+            return 'NO_PROPOSAL', None
         return 'OTHER:' + ','.join(map(str, kinds)), None
 
     def add_halfopen(self, fill='distinct'):
@@ -124,11 +134,11 @@ def vectors_check(v, tier):
         try:
             for _ in range(vec['h']):
                 r.add_halfopen(vec.get('fill', 'distinct'))
-            reply, dh, left = r.send(init_request(SPI[t['spi']], NONCE[t['nonce']], cookies), t['addr'])
+            reply, dh, left = r.send(init_request(SPI[t['spi']], NONCE[t['nonce']], cookies, neg=vec.get('neg', 'ok')), t['addr'])
             kind, ck = r.classify(reply)
             exp = vec['out']
             n += 1
-            cls = (vec['h'] + 1 > threshold, vec.get('fill'), len(vec['cookies']), exp['reply'], tuple(c[0] if c == ['junk'] else (f'cut{c[4]}' if c[0] == 'cut' else ('right' if c[1:] == [t['spi'], t['nonce'], t['addr']] else 'other')) for c in vec['cookies']))
+            cls = (vec['h'] + 1 > threshold, vec.get('fill'), vec.get('neg'), len(vec['cookies']), exp['reply'], tuple(c[0] if c == ['junk'] else (f'cut{c[4]}' if c[0] == 'cut' else ('right' if c[1:] == [t['spi'], t['nonce'], t['addr']] else 'other')) for c in vec['cookies']))
             classes.add(cls)
             if len(samples) < 3 and exp['reply'] == 'COOKIE' and vec['cookies']:
                 samples.append({'half_open': vec['h'], 'tuple': t, 'cookies': vec['cookies'], 'expected': exp, 'observed': {'reply': kind, 'dh': dh, 'left': left}})
@@ -139,7 +149,7 @@ def vectors_check(v, tier):
             got = {'reply': kind, 'dh': dh, 'left': left}
             want = {'reply': exp['reply'], 'dh': exp['dh'], 'left': exp['left']}
             if got != want:
-                v.violation(f'half-open={vec["h"]} threshold={threshold} cookies={cls[4]} fill={cls[1]}: expected {want}, observed {got}', {'vector': vec},
+                v.violation(f'half-open={vec["h"]} threshold={threshold} cookies={cls[5]} fill={cls[1]} request={cls[2]}: expected {want}, observed {got}', {'vector': vec},
                             signature={'component': 'cookie:outcome', 'expected': exp['reply'], 'observed': kind, 'dh': dh, 'left': left})
             elif kind == 'COOKIE' and ck != cookie_for(t, threshold, cache):
                 v.violation('the COOKIE handed out is not the one bound to this SPI, nonce and address', {'vector': vec},
